@@ -193,6 +193,10 @@ func(_rolling_hash2_run_until_00)
 	mov	z, [t1 + x * 8]
 	xor	z, [t2 + y * 8]
 	xor	hash, z
+	mov	x, hash
+	and	x, mask
+	cmp	x, trigger
+	je	.ret_0		; hit on the last byte: leave pos on it, as in the loop
 .ret_1:	add	pos, 1
 .ret_0:	mov	dword [idx], pos.w
 	mov	rax, hash
